@@ -970,6 +970,8 @@ impl Writer {
     ack_submessage: &AckSubmessage,
   ) {
     // sanity check
+    #[cfg(rustdds_verif)]
+    crate::verif::hooks::handler_reached();
     if !self.is_reliable() || self.like_stateless {
       // Stateless-like Writer currently supports only BestEffort QoS, so ignore
       // acknack also for it
